@@ -22,7 +22,13 @@ def SupplyInvAt (s : State) (d : Denom) : Prop :=
 def SupplyInv (s : State) : Prop := ∀ d, SupplyInvAt s d
 
 /-- every balance is non-negative -/
-def NonNeg (l : Ledger) : Prop := ∀ a d, 0 ≤ l.bal a d
+def NonNeg (b : Bank) : Prop := ∀ a d, 0 ≤ b.bal a d
+
+/-- "for every denom the bank's total supply equals the sum of all balances": the bank's STORED
+supply of `d` (what `GetSupply` returns; written only by `MintCoins` / `BurnCoins`) equals the sum
+of every balance entry of `d` in the account store.  (`Ledger.supply` is that sum by definition;
+`PvProofs.LedgerSum.supply_eq_sumBal` rewrites it as Σ over accounts of `bal`.) -/
+def Consistent (b : Bank) : Prop := ∀ d, b.supply d = b.led.supply d
 
 /-- at most one marker record per denom (`SetMarker` keys the record by `MarkerAddress(denom)`) -/
 def WF (s : State) : Prop := (s.markers.map (·.denom)).Nodup
